@@ -201,6 +201,14 @@ def block_transposes(ck, T, axioms):
     T.externals['jax.ShapeDtypeStruct'] = lambda interp, shape, dtype, **k: ('sds', shape, dtype)
     ck.explore('furax.toast.obs_matrix.ToastObservationMatrixOperator.transpose', toast, T, axioms=axioms)
     transpose_overrides(ck)
+    # the hand-written transposes whose contracts live in the packs owning those classes are re-run here by reference
+    # (axis operators C13, QU rotations C15; the einsum operator C14 in the thorough tier: its scenarios take a minute)
+    from props import C13, C15
+    ck.include(C13.build, 'C13', lambda fn: fn.endswith('.transpose') or 'Transpose' in fn)
+    ck.include(C15.build, 'C15', lambda fn: 'QURotationTransposeOperator' in fn or fn.endswith('QURotationOperator.transpose'))
+    if ck.tier == 'thorough':
+        from props import C14
+        ck.include(C14.build, 'C14', lambda fn: fn.endswith('.transpose') or fn.endswith('._get_transposed_subscripts'))
 
 
 def transpose_overrides(ck):
